@@ -7,7 +7,7 @@
   Hypotheses, explicit: sector-atomic writes (built into `Crash` / `tornPieces`), `NoCrcCollision`.
 -/
 import DiskfsModel.Proofs.GptCrash
-import DiskfsModel.Proofs.GptTable
+import DiskfsModel.Proofs.GptWhole
 import DiskfsModel.Generated.GptCrash
 namespace Diskfs.GptCrash.C09
 
@@ -85,6 +85,28 @@ theorem write_list_shape (c : Cfg) (crc : Bytes → Nat) (t0 : Table) (size : Na
         refine ⟨_, _, _, _, _, rfl, ?_, ?_, rfl⟩
         · simp [pmbrEnc]
         · simp
+
+open Diskfs.Gpt in
+/-- the five regions `Write` touches — protective-MBR bytes [446,512), primary header [lss,2·lss),
+    primary array [2·lss, 2·lss+16384), backup array [(last−p)·lss, last·lss), backup header
+    [last·lss, (last+1)·lss) — are laid out in this order without overlap and inside the disk, as soon
+    as the disk has 2·p+3 sectors (p = 16384/lss sectors per array): this is where the minimum disk
+    size enters, and what lets the flat device be viewed as the record of the five regions -/
+theorem regions_disjoint (t0 : Table) (size : Nat) (hf : Fresh t0) (hl : t0.lss = 512 ∨ t0.lss = 4096)
+    (hsz : size < two63) (hmin : (2 * (16384 / t0.lss) + 3) * t0.lss ≤ size) :
+    let t := initTable t0 size
+    let lss := t0.lss
+    512 ≤ lss ∧ 2 * lss + 16384 ≤ arraySector t false * lss ∧
+    arraySector t false * lss + 16384 = t.secondaryHeader * lss ∧
+    t.secondaryHeader * lss + lss ≤ size ∧ arraySector t true * lss = 2 * lss := by
+  simp only
+  unfold arraySector partSectors initTable
+  simp only [hf.ac, hf.es, hf.ph, hf.sh, hf.fd, hf.ld, if_true]
+  rcases hl with h | h
+  all_goals
+    simp only [h, ite_self, Bool.false_eq_true, if_false, show (4096 : Nat) ≠ 0 by decide] at hmin ⊢
+    simp only [u64, u64sub, two64, two63] at *
+    refine ⟨by omega, ?_, ?_, ?_, ?_⟩ <;> first | omega | trivial
 
 open Diskfs.Gpt in
 /-- a torn write is, sector by sector, the new data where `keep` holds and the old content elsewhere
